@@ -74,7 +74,17 @@ Qed.
 Definition err_ok (e : option gval) : bool :=
   match e with Some d => ecal_value d | None => true end.
 
-Definition is_ok (i : istate) : bool := i_node i && err_ok (i_err i).
+Definition is_ok (i : istate) : bool := i_node i && err_ok (i_err i) && Nat.eqb (i_cond i) 0.
+
+Lemma is_ok_parts i : is_ok i = true -> i_node i = true /\ err_ok (i_err i) = true /\ i_cond i = 0.
+Proof.
+  unfold is_ok. intros H. apply andb_true_iff in H. destruct H as [H Hc].
+  apply andb_true_iff in H. destruct H as [Hn He]. apply Nat.eqb_eq in Hc. auto.
+Qed.
+
+Lemma is_ok_intro n e c : n = true -> err_ok e = true -> c = 0 ->
+  forall r cm so vs, is_ok (mkIS r cm so n vs e c) = true.
+Proof. intros -> He -> r cm so vs. unfold is_ok. simpl. rewrite He. reflexivity. Qed.
 
 Definition thread_ok (t : thread) : bool :=
   forallb (forallb encodable) (t_stack t) &&
@@ -179,12 +189,13 @@ Proof.
   destruct (i_running i) eqn:Er; [split; [split; assumption|auto]|].
   assert (Hi : is_ok i = true).
   { unfold thread_ok in Hto. rewrite Ei in Hto. apply andb_true_iff in Hto. apply Hto. }
+  destruct (is_ok_parts _ Hi) as [Hn [He Hc]]. rewrite Hc.
   assert (Hgo : forall c so,
     Inv1 (set_threads s1 (upd_thread tid
-            (fun t' => set_is t' (Some (mkIS true c so (i_node i) (i_vs i) (i_err i)))) (d_threads s1)))).
+            (fun t' => set_is t' (Some (mkIS true c so (i_node i) (i_vs i) (i_err i) (pred 1)))) (d_threads s1)))).
   { intros c so. split; [exact Hl|]. unfold threads_ok. simpl.
     apply upd_thread_ok; [|exact Ht]. intros t' _ Hok. apply set_is_ok; [exact Hok|].
-    unfold is_ok in *. simpl. exact Hi. }
+    apply is_ok_intro; auto. }
   destruct ct; simpl; try (split; [apply Hgo|auto]).
   destruct (t_stack t) as [|f rest] eqn:Es; simpl; (split; [apply Hgo|auto]).
 Qed.
@@ -197,7 +208,7 @@ Proof.
   pose proof (find_thread_ok _ _ _ Ht Ef) as Hto.
   destruct (t_is t) as [i|] eqn:Ei; [|split; [split; assumption|auto]].
   unfold thread_ok in Hto. rewrite Ei in Hto. apply andb_true_iff in Hto. destruct Hto as [Hst Hi].
-  unfold is_ok in Hi. apply andb_true_iff in Hi. destruct Hi as [Hn He].
+  destruct (is_ok_parts _ Hi) as [Hn [He _]].
   assert (Hbase : forallb encodable
             [GBool (i_running i); err_json (i_err i); GList (map (fun _ => GStr) (t_stack t));
              GList (map (fun _ => GObj true) (t_stack t)); GList (map frame_json (t_stack t));
@@ -215,7 +226,7 @@ Lemma thread_status_encodable t : thread_ok t = true -> encodable (thread_status
 Proof.
   unfold thread_ok, thread_status. intros H. apply andb_true_iff in H. destruct H as [_ H].
   destruct (t_is t) as [i|]; cbn [encodable forallb].
-  - unfold is_ok in H. apply andb_true_iff in H. destruct H as [_ He].
+  - destruct (is_ok_parts _ H) as [_ [He _]].
     rewrite (err_json_encodable _ He), const_list_encodable by reflexivity. reflexivity.
   - rewrite const_list_encodable by reflexivity. reflexivity.
 Qed.
@@ -265,7 +276,7 @@ Proof.
   { unfold thread_ok in Hto. rewrite Ei in Hto. apply andb_true_iff in Hto. apply Hto. }
   split; [|auto]. split; [exact Hl|]. unfold threads_ok. simpl.
   apply upd_thread_ok; [|exact Ht]. intros t' _ Hok. apply set_is_ok; [exact Hok|].
-  unfold is_ok in *. simpl. exact Hi.
+  destruct (is_ok_parts _ Hi) as [Hn [He Hc]]. apply is_ok_intro; auto.
 Qed.
 
 (* ------------------------------------------------------------------ commands and lines *)
@@ -401,7 +412,7 @@ Proof.
 Qed.
 
 Lemma inv_total_at s :
-  Inv s -> total_at dstate (list token) oracle gval model_handler d_lock json_ok is_status s.
+  Inv s -> total_at dstate (list token) oracle gval model_handler locks_total json_ok is_status s.
 Proof.
   intros H env line. unfold model_handler.
   destruct (handle_inv s env line H) as [Hi Hg].
@@ -416,7 +427,7 @@ Proof.
 Qed.
 
 Lemma handle_total :
-  total_interface dstate (list token) oracle gval model_handler d_lock json_ok is_status reachable.
+  total_interface dstate (list token) oracle gval model_handler locks_total json_ok is_status reachable.
 Proof. intros s Hr. apply inv_total_at. apply reachable_inv. exact Hr. Qed.
 
 Lemma reachable_closed s e : valid_event e = true -> reachable s -> reachable (step s e).
